@@ -392,48 +392,7 @@ def shrink(case):
                 yield dict(case, classes=_classes(ms[:j] + [m2] + ms[j + 1:]))
 
 
-_WHY = re.compile(r'(fires|detached|leftover) step=(\d+) owner=(\d+) method=(\S+)(?: expected(=|<=)(\d+) got=(\d+))?')
-
-
-def _holders(sh, t, spec):
-    """objects whose parameters are read while resolving the spec from t (t first)"""
-    out, cur = [t], t
-    for n in spec['path']:
-        v = sh.vals[cur][n]
-        if not isinstance(v, dict):
-            break
-        cur = v['ref']
-        out.append(cur)
-    return out
-
-
 def classify(case, impl, fail):
-    if fail.get('kind') != 'counterexample':
-        return None
-    if 'model differs from implementation' in str(fail.get('why', '')):
-        return None         # not the known behaviour (the model reproduces every known finding exactly)
-    m = _WHY.search(str(fail.get('why', '')))
-    if not m:
-        return None
-    kind, step, owner, name = m.group(1), int(m.group(2)), int(m.group(3)), m.group(4)
-    meth = next((x for x in case['classes'][1]['methods'] if x['name'] == name), None)
-    if meth is None or step >= len(case['steps']):
-        return None
-    specs = meth['specs']
-    st = case['steps'][step]
-    if len(specs) < 2 or kind == 'detached':
-        return None         # a method with a single path dependency has no group of several dependencies
-    sh = _replay_shadow(case, step)
-    if kind == 'fires' and st['op'] == 'set' and owner < len(sh.cls) and m.group(6) is not None:
-        exp, got = int(m.group(6)), int(m.group(7))
-        through = [s for s in specs if st['o'] in _holders(sh, owner, s)]
-        # dependencies below different first sub-objects: an earlier assignment of ANOTHER root attribute tore
-        # down every dynamic watcher of the method and rebuilt only those below that attribute
-        if exp == 1 and got == 0 and len(through) == 1:
-            earlier = {x['p'] for x in case['steps'][:step] if x['op'] == 'set' and x['o'] == owner}
-            other = {s['path'][0] for s in specs} - {through[0]['path'][0]}
-            if earlier & other:
-                return 'rebind-drops-other-roots'
-    # every object on which several dependencies of the method are registered (always the owner itself)
-    # holds ONE watcher whose sub-path filter and parent-notification callback come from group[0] only
-    return 'group0-filter-and-callback-only'
+    """no finding is recorded for C07 (the two defects found — group[0]-only filter/callback, rebinding one
+    root dropping the watchers below the others — were fixed): every failure is a violation"""
+    return None
